@@ -202,10 +202,10 @@ class Built:
     pass
 
 
-def _hook(variant, point):
+def _hook(variant, point, B=None):
     cb = (variant or {}).get('hook')
     if cb is not None:
-        cb(point)
+        cb(point, B)
 
 
 def build(spec, rso_mod=None, variant=None):
@@ -255,7 +255,7 @@ def build(spec, rso_mod=None, variant=None):
                 for j in range(sub.shape[1]):
                     if sub[i, j]:
                         y[i].adapt(z[j])
-    _hook(variant, 'declared')
+    _hook(variant, 'declared', B)
     zfull = zs[0] if len(zs) == 1 else rso.concat(zs)
     B.zfull = zfull
 
@@ -335,7 +335,7 @@ def build(spec, rso_mod=None, variant=None):
         m.maxmin(obj, *sargs)
     B.obj = obj
 
-    _hook(variant, 'objective')
+    _hook(variant, 'objective', B)
     # bounds on x and on the rules
     xM, yM = spec['xM'], spec['yM']
     B.user_constr = []
@@ -368,7 +368,7 @@ def build(spec, rso_mod=None, variant=None):
             len(rows))]
     rrng = np.random.default_rng(int(variant.get('row_form', 0)) + 12345)
     for k_, row in rows:
-        _hook(variant, 'row')
+        _hook(variant, 'row', B)
         lhs = expr(row['e'])
         rhs = row['rhs']
         form = int(rrng.integers(4)) if variant.get('row_form') else 0
